@@ -1132,6 +1132,13 @@ def iter_collect(m, a, ci):
             else:
                 cs.append(x)
         return Str(cs)
+    if d == 'BTreeMap':
+        bm = BTreeV(())
+        for x in xs:
+            if not (isinstance(x, Agg) and x.ty == 'tuple' and len(x.fields) == 2):
+                raise EncoderGap('collect into BTreeMap from %r' % (x,))
+            bm = btree_insert(m, bm, x.fields[0], x.fields[1])[0]
+        return bm
     raise EncoderGap('collect into %s' % ci.dest_ty)
 
 
@@ -2526,3 +2533,78 @@ def itertools_join(m, a, ci):
             out = out.concat(sep)
         out = out.concat(_s(m, it))
     return out
+
+
+# -- ordered maps (BTreeMap): a sorted tuple of (key, value); every comparison whose outcome is not determined forks ------------------
+
+class BTreeV:
+    __slots__ = ('items',)
+
+    def __init__(self, items=()):
+        self.items = tuple(items)
+
+    def __repr__(self):
+        return 'BTree%r' % (self.items,)
+
+
+def btree_insert(m, bm, k, v):
+    """-> (new map, old value or None); equal keys replace the value (and keep the old key, as std does)"""
+    items = list(bm.items)
+    pos = 0
+    while pos < len(items):
+        k2 = items[pos][0]
+        if m.ctx.branch(key_lt(m, k, k2)):
+            break
+        if not m.ctx.branch(key_lt(m, k2, k)):
+            old = items[pos][1]
+            items[pos] = (k2, v)
+            return BTreeV(items), old
+        pos += 1
+    items.insert(pos, (k, v))
+    return BTreeV(items), None
+
+
+@reg('BTreeMap::new', 'BTreeMap.Default::default', 'BTreeMap::default')
+def btreemap_new(m, a, ci):
+    return BTreeV(())
+
+
+@reg('BTreeMap::insert')
+def btreemap_insert(m, a, ci):
+    bm, old = btree_insert(m, m.load(a[0]), a[1], a[2])
+    m.store(a[0], bm)
+    return some(old) if old is not None else NONE
+
+
+@reg('BTreeMap::len')
+def btreemap_len(m, a, ci):
+    return len(m.load(a[0]).items)
+
+
+@reg('BTreeMap::is_empty')
+def btreemap_is_empty(m, a, ci):
+    return len(m.load(a[0]).items) == 0
+
+
+@reg('BTreeMap::into_values', 'BTreeMap::values')
+def btreemap_values(m, a, ci):
+    bm = m.load(a[0]) if isinstance(a[0], Ref) else a[0]
+    return ListIter([v for k, v in bm.items])
+
+
+@reg('BTreeMap::into_keys', 'BTreeMap::keys')
+def btreemap_keys(m, a, ci):
+    bm = m.load(a[0]) if isinstance(a[0], Ref) else a[0]
+    return ListIter([k for k, v in bm.items])
+
+
+@reg('BTreeMap.IntoIterator::into_iter', 'BTreeMap::iter')
+def btreemap_iter(m, a, ci):
+    bm = m.load(a[0]) if isinstance(a[0], Ref) else a[0]
+    return ListIter([tup(k, v) for k, v in bm.items])
+
+
+@reg('BTreeMap::contains_key')
+def btreemap_contains_key(m, a, ci):
+    bm = m.load(a[0])
+    return b_or(*[b_and(b_not(key_lt(m, a[1], k)), b_not(key_lt(m, k, a[1]))) for k, v in bm.items])
